@@ -1542,6 +1542,28 @@ void KillCtrl(as_dynstr_t* p_line) {
     } while (*z != '\0');
 }
 
+/*!------------------------------------------------------------------------
+ * \fn     ChkArgCodeSpace(unsigned ElemBytes)
+ * \brief  make room in the code buffer for the data a statement can produce
+ * \param  ElemBytes size of one data element in bytes
+ * \return True if the buffer is large enough now
+ *
+ * Every argument yields at least one element and a string argument at most
+ * one per character, so the number of arguments plus the length of the
+ * argument field bounds the number of elements.
+ * ------------------------------------------------------------------------ */
+
+Boolean ChkArgCodeSpace(unsigned ElemBytes) {
+    LargeWord const MaxElems
+            = (LargeWord)CodeLen + ArgCnt + strlen(ArgPart.str.p_str) + 1;
+
+    if (SetMaxCodeLen(MaxElems * ElemBytes)) {
+        WrError(ErrNum_CodeOverflow);
+        return False;
+    }
+    return True;
+}
+
 /****************************************************************************/
 /* Buchhaltung */
 
